@@ -9,7 +9,7 @@ PROP = {
  "emptied table": "C05", "transforms ignore": "C13", "nonzero() does not": "C05", "None metadata functions": "C09",
  "with replacement tolerates": "C12", "all-zero table survives": "C02", "any JSON serialisation": "C14",
  "numpy booleans": "C02", "min() and max()": "C19", "metadata_to_dataframe": "C19", "duplicated row or column": "C15",
- "version or metadata error": "C15", "empty or duplicated IDs": "C15", "element types and index ranges": "C15", "escaped quotes and brackets": "C14",
+ "version or metadata error": "C15", "empty or duplicated IDs": "C15", "element types and index ranges": "C15", "escaped quotes and brackets": "C14", "string and null header values": "C14",
 }
 def sh(c): return subprocess.run(c, shell=True, stdout=subprocess.PIPE, stderr=subprocess.STDOUT, text=True).stdout
 log = sh("git -C /repo log --reverse --format='%h|%s' ").strip().split("\n")
